@@ -406,6 +406,61 @@ theorem C29_two_trackings_false :
   have := hfull wP 10 wS [.track 0 .progress 1, .track 0 .terminated 0] _ 0 hinv (by decide) (by decide : applyBlock wP 10 wS [.track 0 .progress 1, .track 0 .terminated 0] = some (endBlock wP 10 ([Tx.track 0 .progress 1, .track 0 .terminated 0].foldl (applyTx 10 wS) wS)))
   revert this; decide
 
+/-! ## real payments: each pending withdrawal is paid once -/
+
+theorem checkRealWd_facts (pending : List Nat) : ∀ (l seen : List Nat), checkRealWd pending seen l = none →
+    l.Nodup ∧ (∀ i ∈ l, i ∈ pending ∧ i ∉ seen) := by
+  intro l
+  induction l with
+  | nil => intro _ _; exact ⟨List.nodup_nil, fun i hi => (by cases hi)⟩
+  | cons x t ih =>
+    intro seen h
+    simp only [checkRealWd] at h
+    split at h
+    · cases h
+    · rename_i hp
+      split at h
+      · cases h
+      · rename_i hs
+        obtain ⟨hnd, hall⟩ := ih (x :: seen) h
+        refine ⟨List.nodup_cons.mpr ⟨?_, hnd⟩, ?_⟩
+        · intro hx
+          exact (hall x hx).2 (by simp)
+        · intro i hi
+          rcases List.mem_cons.mp hi with rfl | hi
+          · exact ⟨by simpa using hp, hs⟩
+          · have := hall i hi
+            exact ⟨this.1, fun hmem => this.2 (List.mem_cons_of_mem _ hmem)⟩
+
+/-- An accepted real-withdraw list is duplicate-free and consists of pending withdrawals only: no withdrawal is
+    paid twice by one transaction (the seeded `[h1, h2, h1]` is exactly what this excludes). -/
+theorem C29_realwithdraw_nodup (pending l : List Nat) (h : checkRealWd pending [] l = none) :
+    l.Nodup ∧ ∀ i ∈ l, i ∈ pending := by
+  obtain ⟨h1, h2⟩ := checkRealWd_facts pending l [] h
+  exact ⟨h1, fun i hi => (h2 i hi).1⟩
+
+/-- … and none is paid twice in total: if the withdrawals paid so far (`paid`, duplicate-free) are no longer pending,
+    then after an accepted real-withdraw transaction the paid list is still duplicate-free and still disjoint from
+    what remains pending. -/
+theorem C29_realwithdraw_once (pending paid l : List Nat) (hp : paid.Nodup) (hdis : ∀ i ∈ paid, i ∉ pending)
+    (h : checkRealWd pending [] l = none) :
+    (paid ++ l).Nodup ∧ ∀ i ∈ paid ++ l, i ∉ applyRealWd pending l := by
+  obtain ⟨hnd, hpend⟩ := C29_realwithdraw_nodup pending l h
+  constructor
+  · rw [List.nodup_append]
+    refine ⟨hp, hnd, ?_⟩
+    intro a ha b hb hab
+    subst hab
+    exact hdis a ha (hpend a hb)
+  · intro i hi hmem
+    simp only [applyRealWd, List.mem_filter, decide_eq_true_eq] at hmem
+    rcases List.mem_append.mp hi with hi | hi
+    · exact hdis i hi hmem.1
+    · exact hmem.2 hi
+
+example : checkRealWd [0, 1, 2] [] [2, 0] = none ∧ checkRealWd [0, 1, 2] [] [0, 1, 0] = some "dup" ∧
+    checkRealWd [0, 1] [] [0, 2] = some "unknown" := by decide
+
 /-! ## T-gen: where the guards are enforced and where they are not (regenerated from the source on every run) -/
 
 def slotHas (slot ty fn : String) : Bool :=
